@@ -5,7 +5,6 @@ use std::{
     collections::HashSet,
     iter::{Chain, Flatten},
     num::NonZeroU64,
-    ops::Bound,
 };
 
 use anyhow::{anyhow, Result};
@@ -820,23 +819,24 @@ impl<'a> crate::ranger::Store<SignedEntry> for StoreInstance<'a> {
             }
             // regular range: iter1 = x <= t < y, iter2 = none
             Ordering::Less => {
-                // iterator for entries from range.x to range.y
-                let start = Bound::Included(range.x().to_byte_tuple());
-                let end = Bound::Excluded(range.y().to_byte_tuple());
-                let bounds = RecordsBounds::new(start, end);
+                // iterator for entries from range.x to range.y; the range ends come from the
+                // remote peer, the scan must stay inside this replica's namespace
+                let start = Some(range.x().to_byte_tuple());
+                let end = Some(range.y().to_byte_tuple());
+                let bounds = RecordsBounds::clamped(&self.namespace, start, end);
                 let iter = RecordsRange::with_bounds(&tables.records, bounds)?;
                 chain_none(iter)
             }
             // split range: iter1 = start <= t < y, iter2 = x <= t <= end
             Ordering::Greater => {
                 // iterator for entries from start to range.y
-                let end = Bound::Excluded(range.y().to_byte_tuple());
-                let bounds = RecordsBounds::from_start(&self.namespace, end);
+                let end = Some(range.y().to_byte_tuple());
+                let bounds = RecordsBounds::clamped(&self.namespace, None, end);
                 let iter = RecordsRange::with_bounds(&tables.records, bounds)?;
 
                 // iterator for entries from range.x to end
-                let start = Bound::Included(range.x().to_byte_tuple());
-                let bounds = RecordsBounds::to_end(&self.namespace, start);
+                let start = Some(range.x().to_byte_tuple());
+                let bounds = RecordsBounds::clamped(&self.namespace, start, None);
                 let iter2 = RecordsRange::with_bounds(&tables.records, bounds)?;
 
                 iter.chain(Some(iter2).into_iter().flatten())
